@@ -146,11 +146,12 @@ FoundNodes(o)   == SelectSeq(o.found, LAMBDA f : f.k = "node")
 FoundAddrs(o)   == {FoundNodes(o)[j].addr : j \in 1..Len(FoundNodes(o))}
 NodeName(tree, a) == IF a = <<>> THEN tree.n
                      ELSE NodeAt(tree, SubSeq(a, 1, Len(a) - 1)).pn \o "." \o NodeAt(tree, a).jn
-NestedHas(tree, ty) == \E a \in AllOfType(tree, ty) : InsideNested(tree, a)
 VerdictXSet(o, tree) ==
   LET all      == AllOfType(tree, o.T)
       required == {a \in all : NodeAt(tree, a).hp}
       optional == all \ required
+      nested   == NestedResourcesFrom(tree, <<>>)
+      inNested(a) == \E p \in nested : IsPrefixOf(p, a)
       found    == FoundAddrs(o)
       unknown  == Len(SelectSeq(o.found, LAMBDA f : f.k # "node"))
       badAddr  == \E j \in 1..Len(o.found) : o.found[j].k = "node" /\ ~ValidAddr(tree, o.found[j].addr)
@@ -159,8 +160,8 @@ VerdictXSet(o, tree) ==
   IN IF o.T \notin ExtractTypes \/ badAddr THEN V(o.id, FALSE, "malformed|xset", <<>>)
      ELSE IF o.out \in {"panic", "timeout"} THEN V(o.id, FALSE, pre \o o.out, <<>>)
      ELSE IF o.out = "err" THEN
-            V(o.id, FALSE, pre \o (IF NestedHas(tree, o.T) THEN "error|element-inside-nested-resource" ELSE "error|unexpected"), <<>>)
-     ELSE IF unknown > Cardinality({a \in optional : InsideNested(tree, a)}) THEN
+            V(o.id, FALSE, pre \o (IF \E a \in all : inNested(a) THEN "error|element-inside-nested-resource" ELSE "error|unexpected"), <<>>)
+     ELSE IF unknown > Cardinality({a \in optional : inNested(a)}) THEN
             V(o.id, FALSE, pre \o "found-element-that-is-not-in-the-tree|" \o (SelectSeq(o.found, LAMBDA f : f.k # "node")[1]).pn, <<>>)
      ELSE IF found \ all # {} THEN V(o.id, FALSE, pre \o "found-element-of-another-type|" \o NodeName(tree, anyOf(found \ all)), <<>>)
      ELSE IF Len(FoundNodes(o)) # Cardinality(found) THEN V(o.id, FALSE, pre \o "found-twice", <<>>)
